@@ -600,6 +600,57 @@ func c08Catalog() []c08Entry {
 			}
 			return k
 		}),
+		binEntryOf("bootstrapping.Parameters", func(g *c08Gen) *bootstrapping.Parameters {
+			// the built parameters of a bootstrapping circuit (two parameter sets, two matrix literals, the literal of
+			// the modular reduction): built once per worker and variant, the plain fields redrawn per run
+			variant := g.ch.Draw("btpp-variant", 6)
+			c := g.ctx.Cached(fmt.Sprintf("c08/btp-params/%d", variant), func(*core.Xoshiro) any {
+				lit := ckks.ParametersLiteral{LogN: 10, LogQ: []int{60, 40}, LogP: []int{61}, LogDefaultScale: 40}
+				btpLit := bootstrapping.ParametersLiteral{}
+				n2 := 10
+				switch variant {
+				case 1: // residual ring of half the degree
+					lit.LogNthRoot = lit.LogN + 1
+					lit.LogN--
+				case 2: // conjugate-invariant residual ring
+					lit.RingType = ring.ConjugateInvariant
+					lit.LogN--
+				case 3: // iterations
+					btpLit.IterationsParameters = &bootstrapping.IterationsParameters{BootstrappingPrecision: []float64{25}, ReservedPrimeBitSize: 28}
+					lit.LogQ = []int{60, 40, 28}
+				case 4: // sparse slots, another sine approximation
+					ls := 5
+					btpLit.LogSlots = &ls
+					btpLit.Mod1Type = mod1.SinContinuous
+				case 5:
+					h := 0
+					btpLit.EphemeralSecretWeight = &h
+					lit.LogQ = []int{55, 45, 45}
+				}
+				btpLit.LogN = &n2
+				params, err := ckks.NewParametersFromLiteral(lit)
+				if err != nil {
+					return err
+				}
+				btp, err := bootstrapping.NewParametersFromLiteral(params, btpLit)
+				if err != nil {
+					return err
+				}
+				return &btp
+			})
+			base, ok := c.(*bootstrapping.Parameters)
+			if !ok {
+				g.ctx.Harness("bootstrapping parameters, variant %d: %v", variant, c)
+			}
+			p := *base
+			if g.ch.Bool("btpp-fields") {
+				p.EphemeralSecretWeight = g.ch.Draw("btpp-h", 300)
+				p.CircuitOrder = bootstrapping.CircuitOrder(g.ch.Draw("btpp-order", 3))
+				p.Mod1ParametersLiteral.LogMessageRatio = 2 + g.ch.Draw("btpp-ratio", 10)
+				p.SlotsToCoeffsParameters.LogSlots = 1 + g.ch.Draw("btpp-logslots", 9)
+			}
+			return &p
+		}),
 		// multiparty shares
 		entryOf("multiparty.PublicKeyGenShare", func(g *c08Gen) *multiparty.PublicKeyGenShare {
 			s := multiparty.NewPublicKeyGenProtocol(g.params).AllocateShare()
